@@ -43,8 +43,8 @@ Proof.
   induction fuel; intros mem mo Hr [k [Hk Hs]]; [lia|].
   rewrite destroy_loop0_eq. unfold id_addr. cbv zeta.
   assert (E : mem_store mem (mem hd) raw hd = mem hd) by (unfold mem_store; apply GenPrelude.upd_other; auto).
-  rewrite E, Z.eqb_refl. simpl.
-  destruct (sp fuel) eqn:Sf; simpl.
+  rewrite E, Z.eqb_refl. cbn [andb].
+  destruct (sp fuel) eqn:Sf; cbn [negb].
   - destruct (IHfuel (mem_store mem (mem hd) raw) (Z.min mo 5) Hr) as [m' [R Hm]].
     { exists k. split; auto. destruct (Nat.eq_dec k fuel); [subst; congruence|lia]. }
     exists m'. split; [rewrite R; f_equal; f_equal; lia|]. intros a. rewrite Hm, E.
